@@ -145,6 +145,8 @@ type Case struct {
 	// create-time [0] / update-time [1] field (different from the stored one
 	// and from "now")
 	TVals [2]int `json:"time_vals"`
+	// RowMix: in slice values the odd rows carry zero values in every data field
+	RowMix bool `json:"row_mix,omitempty"`
 	// SkipHooks: the chain starts with Session(&Session{SkipHooks: true})
 	SkipHooks bool   `json:"skip_hooks,omitempty"`
 	Readable  string `json:"readable,omitempty"`
@@ -188,7 +190,7 @@ func (m ModelSpec) spelled(n NameRef) string {
 }
 
 func (c Case) key() string {
-	return fmt.Sprintf("%d%v|%v|%d|%v|%d|%v|%v|%v|%v|%d|%d|%v|%v", c.Model.Shape, c.Model.PatchTags, c.Model.Tags, c.Model.TimeKind, c.Model.CTag, c.Fin, c.Sel.Star, c.Sel.Sel, c.Sel.Omit, c.Vals, c.KeySpell, c.Target, c.TVals, c.SkipHooks)
+	return fmt.Sprintf("%v%v|%d%v|%v|%d|%v|%d|%v|%v|%v|%v|%d|%d|%v|%v", c.Model.DBDefault, c.RowMix, c.Model.Shape, c.Model.PatchTags, c.Model.Tags, c.Model.TimeKind, c.Model.CTag, c.Fin, c.Sel.Star, c.Sel.Sel, c.Sel.Omit, c.Vals, c.KeySpell, c.Target, c.TVals, c.SkipHooks)
 }
 
 // ---------------------------------------------------------------------------
@@ -255,12 +257,21 @@ func dbVal(i, code, r int, create bool, old interface{}) interface{} {
 	return nil
 }
 
+// structNonZero: does row r of a struct / slice value carry a non-zero value
+// in data field i
+func (c Case) structNonZero(i, r int) bool {
+	if c.RowMix && r%2 == 1 {
+		return false
+	}
+	return c.Vals[i] == vNonZero || c.Vals[i] == vExpr
+}
+
 func (c Case) newStruct(id uint, r int) reflect.Value {
 	p := reflect.New(c.Model.Type())
 	v := p.Elem()
 	v.FieldByName("ID").SetUint(uint64(id))
 	for i := 0; i < 4; i++ {
-		if c.Vals[i] == vNonZero || c.Vals[i] == vExpr {
+		if c.structNonZero(i, r) {
 			f := v.FieldByName(fmt.Sprintf("F%d", i))
 			if dataIsString[i] {
 				f.SetString(nonZeroVal(i, r).(string))
@@ -401,7 +412,7 @@ func (c Case) structString(id uint, r int) string {
 		ps = append(ps, fmt.Sprintf("ID:%d", id))
 	}
 	for i := 0; i < 4; i++ {
-		if c.Vals[i] == vNonZero || c.Vals[i] == vExpr {
+		if c.structNonZero(i, r) {
 			ps = append(ps, fmt.Sprintf("F%d:%s", i, valString(nonZeroVal(i, r))))
 		}
 	}
